@@ -261,8 +261,23 @@ def run_embed(ctx, model, harness, harness_asan):
 # whole payloads: MockMiner-built ATV/VTB/VbkBlock/PopData and their single-field mutations
 # ---------------------------------------------------------------------------------------------
 # shape of the harness world (checked against its `world` line)
-WORLD = {"nvtb": 5, "natv": 3, "ctx": 3, "btclayers": 3, "vtblayers": 5, "atvlayers": 4}
+WORLD = {"nvtb": 5, "natv": 3, "ctx": 3, "btclayers": 3, "vtblayers": 5, "atvlayers": 4,
+         "vtbidx": "0,1,2,3,4", "atvidx": "0,1,2", "btcidx": "0,1,2,3,4"}
+LEAVES = {"vtb": 5, "atv": 3, "btc": 7}      # transactions per Merkle tree in the harness world
+
+
+def index_bit_matters(nleaves, leaf, k, levels):
+    """does flipping bit k of the Merkle index change the root? Not above the tree, and not where the node is the
+    odd last node of its level (it is paired with itself: sha(x,x) either way)"""
+    if k >= levels:
+        return False
+    count = nleaves
+    for _ in range(k):
+        count = (count + 1) // 2
+    return not (count % 2 == 1 and (leaf >> k) == count - 1)
+
 # Mutations that may legitimately still be accepted (claim N) — semantically neutral for stateless validation:
+#  * Merkle index bits where the node is the odd last node of its tree level (paired with itself, sha(x,x) either way)
 #  * Merkle index bits at or above the number of hashed layers (BTC path: bit >= #layers; VBK path: index bit >= #layers-2,
 #    treeIndex bit >= 1): calculateMerkleRoot never reads them (lemma btc_spec_index_low / vbk_side)
 #  * header fields of blockOfProof / containingBlock other than the Merkle root: validated contextually, not statelessly
@@ -290,7 +305,8 @@ def gen_payload_cases(ctx):
         V = str(v)
         # unsigned part of the VTB
         for k in range(32):
-            C.add("vtb/v.mp.index", "vtb", V, "v.mp.index", str(k), "0", "R" if k < WORLD["vtblayers"] - 2 else "N")
+            C.add("vtb/v.mp.index", "vtb", V, "v.mp.index", str(k), "0",
+                  "R" if index_bit_matters(LEAVES["vtb"], v, k, WORLD["vtblayers"] - 2) else "N")
             C.add("vtb/v.mp.tree", "vtb", V, "v.mp.tree", str(k), "0", "R" if k == 0 else "N")
         for layer in range(WORLD["vtblayers"]):
             for b in bits(256, 2 * reps):
@@ -318,7 +334,8 @@ def gen_payload_cases(ctx):
                 C.add("vtb/resigned/" + m, "poptx", V, m, str(k), "1", claim)
                 C.add("vtb/resigned-outer/" + m, "vtb", V, m, str(k), "1", "R")
         for k in range(32):
-            C.add("vtb/resigned/t.mp.index", "poptx", V, "t.mp.index", str(k), "1", "R" if k < WORLD["btclayers"] else "N")
+            C.add("vtb/resigned/t.mp.index", "poptx", V, "t.mp.index", str(k), "1",
+                  "R" if index_bit_matters(LEAVES["btc"], v, k, WORLD["btclayers"]) else "N")
         C.add("vtb/raw/t.mp.index", "vtb", V, "t.mp.index", "0", "0", "R")
         for f in ("version", "prev", "time", "bits", "nonce"):
             C.add("vtb/resigned/t.bop.other", "poptx", V, "t.bop." + f, str(r.range(1, 50)), "1", "N")
@@ -332,9 +349,19 @@ def gen_payload_cases(ctx):
         for b in bits(560, 6 * reps):
             C.add("vtb/t.sig", "vtb", V, "t.sig", str(b), "0", "N")
         C.add("vtb/t.sig", "vtb", V, "t.sig.trunc", "0", "0", "N")
+    if quick:   # index bits of the remaining variants too (odd last leaves behave differently)
+        for v in (1, 2, 4):
+            for k in range(32):
+                C.add("vtb/v.mp.index", "vtb", str(v), "v.mp.index", str(k), "0",
+                      "R" if index_bit_matters(LEAVES["vtb"], v, k, WORLD["vtblayers"] - 2) else "N")
+                C.add("vtb/resigned/t.mp.index", "poptx", str(v), "t.mp.index", str(k), "1",
+                      "R" if index_bit_matters(LEAVES["btc"], v, k, WORLD["btclayers"]) else "N")
+        for v in (1, 2):
+            for k in range(32):
+                C.add("atv/v.mp.index", "atv", str(v), "v.mp.index", str(k), "0",
+                      "R" if index_bit_matters(LEAVES["atv"], v, k, WORLD["atvlayers"] - 2) else "N")
     if not quick:
         C.add("vtb/ctx-limit", "poptx", "0", "t.ctx.many", "65536", "1", "R")
-        C.add("vtb/ctx-limit", "poptx", "0", "t.ctx.many", "65535", "1", "N")
     # ATVs
     for v in range(WORLD["natv"]):
         C.add("atv/honest", "atv", str(v), "none", "0", "0", "A")
@@ -343,7 +370,8 @@ def gen_payload_cases(ctx):
     for v in ([0] if quick else range(WORLD["natv"])):
         V = str(v)
         for k in range(32):
-            C.add("atv/v.mp.index", "atv", V, "v.mp.index", str(k), "0", "R" if k < WORLD["atvlayers"] - 2 else "N")
+            C.add("atv/v.mp.index", "atv", V, "v.mp.index", str(k), "0",
+                  "R" if index_bit_matters(LEAVES["atv"], v, k, WORLD["atvlayers"] - 2) else "N")
             C.add("atv/v.mp.tree", "atv", V, "v.mp.tree", str(k), "0", "R" if k == 0 else "N")
         for layer in range(WORLD["atvlayers"]):
             for b in bits(256, 2 * reps):
